@@ -496,6 +496,13 @@ func c4forms(t c4T, thorough bool) []*c4form {
 		add("map store "+cs, nil, "any", "m := map[int]"+tn+"{}\nm[1] = "+cs+"\nreturn m[1]", k, nil)
 		add("global store "+cs, nil, "any", "G"+tn+" = "+cs+"\nreturn G"+tn, k, nil)
 		add("result adoption then use "+cs, []c4T{t}, "any", "v := id"+tn+"("+cs+")\nreturn v + x", func(a []float64) c4res { return c4bin("+", t, c, a[0]) }, nil)
+		add("named constant into a declaration "+cs, nil, "any", "const k = "+cs+"\nvar v "+tn+" = k\nreturn v", k, nil)
+		add("named constant assigned "+cs, nil, "any", "const k = "+cs+"\nvar v "+tn+"\nv = k\nreturn v", k, nil)
+		add("named constant as an argument "+cs, nil, "any", "const k = "+cs+"\nreturn id"+tn+"(k)", k, nil)
+		add("named constant in a slice literal "+cs, nil, "any", "const k = "+cs+"\ns := []"+tn+"{k}\nreturn s[0]", k, nil)
+		add("named constant as an operand "+cs, []c4T{t}, "any", "const k = "+cs+"\nreturn x + k", func(a []float64) c4res { return c4bin("+", t, a[0], c) }, nil)
+		add("tuple assignment to a variable and an element "+cs, nil, "any", "var v "+tn+"\ns := make([]"+tn+", 1)\nv, s[0] = "+cs+", "+cs+"\n_ = s\nreturn v", k, nil)
+		add("tuple assignment to an element and a field "+cs, nil, "any", "p := &S"+tn+"{}\ns := make([]"+tn+", 1)\ns[0], p.f = "+cs+", "+cs+"\n_ = s\nreturn p.f", k, nil)
 		add("typed constant "+cs, nil, "any", "const k "+tn+" = "+cs+"\nv := k\nreturn v", k, nil)
 		add("typed constant then use "+cs, []c4T{t}, "any", "const k "+tn+" = "+cs+"\nv := k\nv += x\nreturn v", func(a []float64) c4res { return c4bin("+", t, c, a[0]) }, nil)
 	}
@@ -656,7 +663,7 @@ const c4perPkg = 250
 
 func c4run(r *report.Run) {
 	thorough := r.Tier == "thorough"
-	r.Rule("forms = operator x type x syntactic position (var op var, op= and ++/-- on 7 lvalue kinds, x = x op y, unary, var op const / const op var / op= const over a constant set, 15 declaration/adoption positions (incl. typed constants), conversions among all 5 types, shifts with a count of another type, untyped constants shifted by a variable in four typed contexts); every form is called with every operand tuple: all 256x256 pairs for int8/uint8, the full boundary square for int32/uint32/float64; non-trivial = distinct (form, operands) whose Go result wraps, truncates, changes sign, panics or is a comparison")
+	r.Rule("forms = operator x type x syntactic position (var op var, op= and ++/-- on 7 lvalue kinds, x = x op y, unary, var op const / const op var / op= const over a constant set, 22 declaration/adoption positions (incl. typed and named untyped constants, tuple assignments to elements and fields), conversions among all 5 types, shifts with a count of another type, untyped constants shifted by a variable in four typed contexts); every form is called with every operand tuple: all 256x256 pairs for int8/uint8, the full boundary square for int32/uint32/float64; non-trivial = distinct (form, operands) whose Go result wraps, truncates, changes sign, panics or is a comparison")
 	r.Assume("native Go arithmetic compiled into the harness is the oracle; every form is also compiled and spot-run by the Go toolchain", "32-bit and float64 operands are boundary sets, not all values", "amd64 semantics for float->integer conversions are not relied on: conversions whose result Go leaves implementation-defined are skipped")
 	types := []c4T{c4i8, c4u8, c4i32, c4u32, c4f64}
 	type job struct {
